@@ -4,7 +4,7 @@
    struct tags (gen/Schema_gen.v) and is what the tie executes; C9 / C9I instantiate it with scalars, string
    lists and custom types given by their own codec (version: C03, dependency and architecture: C05). *)
 From Coq Require Import List Ascii String Bool Arith NArith ZArith Lia.
-Require Import GS V3 V4 L10 L11 R2 C9 C9G C9I C9T CX C9C.
+Require Import GS V3 V4 L10 L11 R2 R3 PU C9 C9G C9I C9T CX C9C.
 Import ListNotations.
 
 (* every value kind round-trips: string, int, uint, bool *)
@@ -64,6 +64,25 @@ Theorem C09_unknown_fields_pass_through : forall sch r found,
   = filter (fun k => negb (C9G.mem k (map (C9G.fkey fd) (gschema sch)))) (C9G.order found).
 Proof. exact CX_passthrough_order. Qed.
 Print Assumptions C09_unknown_fields_pass_through.
+
+(* the two paragraph operations the encoder is built from (control/parse.go).  Set and Update keep the paragraph
+   invariant of C07 (every listed field has a value, each field listed once); after Update a key listed by the other
+   paragraph has the other's value and every other key keeps the receiver's; the receiver's fields come first in their
+   own order, then the other's new fields in the other's order, each once *)
+Theorem C09_set_update_keep_invariant : forall p q k v, R3.pinv p -> R3.pinv (PU.pset p k v) /\ R3.pinv (PU.update p q).
+Proof. exact (fun p q k v I => conj (PU.pset_pinv p k v I) (PU.update_pinv p q I)). Qed.
+Theorem C09_set_value : forall p k v j,
+  R2.lookup j (R2.values (PU.pset p k v)) = (if str_eqb k j then v else R2.lookup j (R2.values p)) /\
+  R2.order (PU.pset p k v) = (if R2.mem k (R2.values p) then R2.order p else R2.order p ++ [k]).
+Proof. exact (fun p k v j => conj (PU.pset_lookup p k v j) (PU.pset_order p k v)). Qed.
+Theorem C09_update_value : forall p q j,
+  R2.lookup j (R2.values (PU.update p q)) =
+  if existsb (str_eqb j) (R2.order q) then R2.lookup j (R2.values q) else R2.lookup j (R2.values p).
+Proof. exact PU.update_lookup. Qed.
+Theorem C09_update_order : forall p q, R3.pinv p ->
+  R2.order (PU.update p q) = R2.order p ++ PU.fresh (R2.order p) (R2.order q).
+Proof. exact PU.update_order. Qed.
+Print Assumptions C09_update_order.
 
 (* marshalling never "panics" in the model: it is a total function returning text or an error *)
 Example C09_marshal_total : forall sch hp found r, exists o, marshal_text sch hp found r = o.
